@@ -21,7 +21,7 @@ DIM_GROUPS_QUICK = [
 
 
 def make_cases(seed: int, tier: str, n_cases: int | None = None) -> list[dict]:
-    n = n_cases or (32 if tier == "quick" else 1500)
+    n = n_cases or (32 if tier == "quick" else 700)
     cases = []
     for idx in range(n):
         cs = H(seed, PROP, tier, idx)
